@@ -1,4 +1,5 @@
 import Jasm.Spec.Decode
+import Jasm.Properties.C08
 /-!
 # C10 The matcher's text stream is an unambiguous encoding of the instruction list
 
@@ -167,5 +168,123 @@ theorem C10_empty_operand_ambiguous :
 /-- ... and so is the exclusion of `,` inside a mnemonic (finding D7: objdump prints `jb,pn`) -/
 theorem C10_comma_mnemonic_ambiguous :
     encAll [⟨"24a".toList, "jb,pn".toList, ["209".toList]⟩] = encAll [⟨"24a".toList, "jb".toList, ["pn".toList, "209".toList]⟩] := by decide
+/-! ## From objdump text to the stream and back
+
+The hypothesis `Inst.WF` of the round trip is discharged for everything the parser produces from a
+listing of the objdump grammar (C08/C09), under the side conditions of `LineSpec.Clean` (no `|`
+inside a name, no `,` inside a mnemonic, no empty immediate): the branch-hint mnemonics of finding
+D7 are exactly what `mnem_clean` excludes. -/
+
+open Jasm.C08 Jasm.C09
+
+def NoBar (s : Str) : Prop := '|' ∉ s
+
+/-- side conditions on one operand beyond `Operand.WF`: no `|` inside a component, no empty immediate -/
+def OperandClean : Operand → Prop
+  | .imm v => NoBar v ∧ v ≠ []
+  | .reg r => NoBar r
+  | .target h => NoBar h
+  | .star r => NoBar r
+  | .mem k a bc => NoBar k ∧ (∀ x, a = some x → NoBar x) ∧ (∀ b c, bc = some (b, c) → NoBar b ∧ NoBar c)
+
+structure InstLineClean (l : InstLine) : Prop where
+  mnem_clean : cleanField l.mnem
+  ops_clean : ∀ o ∈ l.ops, OperandClean o
+
+def LineSpecClean : LineSpec → Prop
+  | .inst l => InstLineClean l
+  | _ => True
+
+theorem normalForm_clean (o : Operand) (hwf : Operand.WF o) (hc : OperandClean o) :
+    cleanField o.normalForm ∧ o.normalForm ≠ [] := by
+  cases o with
+  | imm v =>
+    simp only [Operand.WF] at hwf
+    exact ⟨⟨(plain_no v hwf).2.2, hc.1⟩, hc.2⟩
+  | reg r =>
+    simp only [Operand.WF] at hwf
+    refine ⟨⟨?_, ?_⟩, by simp [Operand.normalForm]⟩
+    · simp only [Operand.normalForm, List.mem_cons, not_or]; exact ⟨by decide, (plain_no r hwf).2.2⟩
+    · simp only [Operand.normalForm, List.mem_cons, not_or]; exact ⟨by decide, hc⟩
+  | star r =>
+    simp only [Operand.WF] at hwf
+    refine ⟨⟨?_, ?_⟩, by simp [Operand.normalForm]⟩
+    · simp only [Operand.normalForm, List.mem_cons, not_or]; exact ⟨by decide, by decide, (plain_no r hwf).2.2⟩
+    · simp only [Operand.normalForm, List.mem_cons, not_or]; exact ⟨by decide, by decide, hc⟩
+  | target h =>
+    simp only [Operand.WF] at hwf
+    exact ⟨⟨(plain_no h hwf.1).2.2, hc⟩, hwf.2.1⟩
+  | mem k a bc =>
+    simp only [Operand.WF] at hwf
+    obtain ⟨hk, ha, hbc, -, -⟩ := hwf
+    obtain ⟨ck, ca, cbc⟩ := hc
+    have k1 := (plain_no k hk).2.2
+    refine ⟨?_, by simp [Operand.normalForm]⟩
+    unfold NoBar at ck ca cbc
+    rcases a with _ | x <;> rcases bc with _ | ⟨b, c⟩
+    · simp only [cleanField, Operand.normalForm]
+      split <;> simp [k1, ck]
+    · have hb := hbc b c rfl
+      have cb := cbc b c rfl
+      have b1 := (plain_no b hb.1).2.2
+      have c1 := (plain_no c hb.2).2.2
+      simp only [cleanField, Operand.normalForm]
+      split <;> simp [k1, ck, b1, c1, cb.1, cb.2]
+    · have x1 := (plain_no x (ha x rfl)).2.2
+      have x2 := ca x rfl
+      simp only [cleanField, Operand.normalForm]
+      split <;> simp [k1, ck, x1, x2]
+    · have hb := hbc b c rfl
+      have cb := cbc b c rfl
+      have b1 := (plain_no b hb.1).2.2
+      have c1 := (plain_no c hb.2).2.2
+      have x1 := (plain_no x (ha x rfl)).2.2
+      have x2 := ca x rfl
+      simp only [cleanField, Operand.normalForm]
+      split <;> simp [k1, ck, b1, c1, cb.1, cb.2, x1, x2]
+
+theorem hexChar_not_sep {c : Char} (h : isHexChar c = true) : c ≠ ':' ∧ c ≠ '|' := by
+  constructor <;> (rintro rfl; revert h; decide)
+
+/-- **C10 (parser output is well-formed)**: the instruction a clean instruction line of the grammar
+stands for satisfies the hypotheses of the round trip -/
+theorem C10_parser_output_wf (l : InstLine) (h : InstLine.WF l) (hc : InstLineClean l) (i : Inst)
+    (hi : instOf (.inst l) = some i) : i.WF := by
+  simp only [instOf, Option.some.injEq] at hi
+  subst hi
+  constructor
+  · intro hm; exact (hexChar_not_sep (h.addr_hex _ hm)).1 rfl
+  · intro hm; exact (hexChar_not_sep (h.addr_hex _ hm)).2 rfl
+  · show cleanField (if l.ops.isEmpty && l.mnem = "(bad)".toList then "bad".toList else l.mnem)
+    split
+    · exact ⟨by decide, by decide⟩
+    · exact hc.mnem_clean
+  · intro o ho
+    obtain ⟨op, hop, rfl⟩ := List.mem_map.mp ho
+    exact normalForm_clean op (h.ops_wf op hop) (hc.ops_clean op hop)
+
+theorem expectedInsts_wf (ls : List LineSpec) (h : ∀ l ∈ ls, LineSpec.WF l) (hc : ∀ l ∈ ls, LineSpecClean l) :
+    ∀ i ∈ expectedInsts ls, i.WF := by
+  intro i hi
+  simp only [expectedInsts, List.mem_filterMap] at hi
+  obtain ⟨l, hl, hli⟩ := hi
+  cases l with
+  | inst il => exact C10_parser_output_wf il (h _ hl).1.1 (hc _ hl) i hli
+  | cont _ _ _ | label _ _ | blank | header _ _ | sect _ | dots => simp [instOf] at hli
+
+/-- **C10 (end to end)**: for every clean listing of the objdump grammar, the text stream built from
+the parser's output decodes back to exactly the instructions of the listing's instruction lines -/
+theorem C10_end_to_end (ls : List LineSpec) (hne : ls ≠ []) (h : ∀ l ∈ ls, LineSpec.WF l)
+    (hc : ∀ l ∈ ls, LineSpecClean l) :
+    ∃ L, (parseListing (renderListing ls) >>= processAll none) = .ok L ∧ L = expectedInsts ls ∧
+      decode (encAll L) = some L :=
+  ⟨expectedInsts ls, C08_stream ls hne h, rfl, C10_roundtrip _ (expectedInsts_wf ls h hc)⟩
+
+/-- non-vacuity: the demonstration line of C08 (real objdump output) is clean -/
+example : InstLineClean C08.demoLine :=
+  ⟨⟨by decide, by decide⟩, by
+    intro o ho
+    simp only [C08.demoLine, List.mem_cons, List.not_mem_nil, or_false] at ho
+    rcases ho with rfl | rfl <;> simp [OperandClean, NoBar]⟩
 
 end Jasm.C10
